@@ -127,7 +127,11 @@ impl<const WIDTH: u32> Modular<WIDTH> {
 
     // Sends a number to a modular space.
     fn trans(&self, val: isize) -> isize {
-        debug_assert!(val <= self.max);
+        // `val` may exceed `max`: a cascade keeps using the epoch it read when it started, while
+        // it re-pins itself and other threads keep stamping newer epochs. Such a value maps to a
+        // non-negative number, i.e. it compares as at least as recent as anything in the
+        // window, which is the safe direction. (Before the global epoch reaches `1 << WIDTH`
+        // no reduction hides this case.)
         (val - (self.max + 1)) % (1 << WIDTH)
     }
 
